@@ -414,7 +414,9 @@ def evidence(prop, tier, batch_seed, total, wall, wall_search, nruns, workers,
             'components': eng.COMPONENTS,
             'known_findings_seen': known_lines,
             'replays': replay_paths,
-            'distinct_sample': sorted(total['cover'])[:25],
+            'distinct_by_kind': dict(Counter(
+                '|'.join(c.split('|')[:2]) for c in total['cover'])),
+            'distinct_sample': sorted(total['cover'])[::max(1, len(total['cover']) // 25)][:25],
         },
         'assumptions': eng.ASSUMPTIONS[prop],
         'wall_s': round(wall, 2),
